@@ -50,9 +50,11 @@ class Canon:
 
 
 class Style:
-    def __init__(self, rnd=None, vary: float = 1.0, features=frozenset()):
+    def __init__(self, rnd=None, vary: float = 1.0, features=frozenset(), quote=None, pad=None):
         self.r = rnd if rnd is not None else Canon()
         self.vary = vary if rnd is not None else 0.0
+        self.quote = quote      # force a string style: "'" | '"' | 't' (triple); None = choose
+        self.pad = pad          # force layout padding of triple-quoted notes on/off; None = choose
         # writer-level feature flags (sub-domains an open finding makes inadmissible):
         #   prop_newline: a line break next to a property inside a column settings list
         self.features = frozenset(features)
@@ -186,6 +188,8 @@ def spell_string(text: str, st: Style, note: bool = False) -> str:
     normalisation removes again (blank lines around, uniform indentation)."""
     if '\n' in text:
         styles = ['t']
+    elif st.quote is not None:
+        styles = [st.quote]
     else:
         styles = ["'", "'", '"', 't'] if st.vary else ["'"]
     s = st.pick(styles)
@@ -194,7 +198,7 @@ def spell_string(text: str, st: Style, note: bool = False) -> str:
     if s == '"':
         return '"' + esc_single(text, '"') + '"'
     body = esc_triple(text, every=st.chance(0.5))
-    if note and st.chance(0.5) and text.strip(' \t\n') != '':
+    if note and (st.chance(0.5) if st.pad is None else st.pad) and text.strip(' \t\n') != '':
         ind = st.pick(['  ', '    ', '\t', ' '])
         body = '\n'.join((ind + l) if l != '' else l for l in body.split('\n'))
         body = st.pick(['\n', '\n\n', '\n  \n']) + body + st.pick(['\n', '\n  ', '\n\n', '\n' + ind])
